@@ -13,7 +13,7 @@ from __future__ import annotations
 import itertools
 
 from .. import qast as Q
-from ..common import (X, Y, Z, A, leaves_xy, leaves_xyz, leaves_self, XY_REP, rich_world, VARS3, VARS_SELF, tiny_domains,
+from ..common import (X, Y, Z, A, L, leaves_xy, leaves_xyz, leaves_self, XY_REP, rich_world, VARS3, VARS_SELF, tiny_domains,
                       eval_rows, diff_rows, row_labels, is_exc, root_kind)
 from ..isolate import run_isolated
 from ..space import trees_by_depth, nonempty_ordered_selections
@@ -28,6 +28,9 @@ ASSUMPTIONS = ["attribute values non-falsy (falsy values: C19)", "row order is n
 
 VARSETS = {"xy": VARS3[:2], "xyz": VARS3, "self": VARS_SELF, "x": VARS3[:1]}
 RICH = rich_world()
+NEST3_LEAVES = [("cmp", "eq", A(X, "p"), L(1)), ("cmp", "eq", A(Y, "p"), L(1)), ("cmp", "ge", A(Z, "q"), L(2)),
+                ("cmp", "eq", A(X, "p"), A(Y, "p")), ("cmp", "lt", A(Y, "q"), A(Z, "q")), ("cmp", "ne", A(X, "q"), A(Z, "p")),
+                ("cmp", "eq", A(Z, "p"), L(2))]
 XYZ_REP = XY_REP + [("cmp", "eq", A(Y, "p"), A(Z, "p")), ("cmp", "ne", A(X, "p"), A(Z, "q"))]
 
 
@@ -78,6 +81,17 @@ def cases(tier, inst):
             continue
         for sel in ((X, Y), (Y,)) + (((Y, X), (X,)) if thorough else ()):
             yield ("xy", t, sel, "rich")
+    # (g) three variables, a connective nested in the other one, under EVERY declaration order of the variables (the
+    #     operator caches are keyed by variable ids, i.e. by declaration order)
+    l3 = NEST3_LEAVES if thorough else NEST3_LEAVES[:5]
+    for a, b, c in itertools.product(l3, repeat=3):
+        if len({a, b, c}) < 3:
+            continue
+        for shape in (("and", a, ("or", b, c)), ("or", a, ("and", b, c)), ("and", ("or", a, b), c), ("or", ("and", a, b), c)):
+            if len(Q.cond_vars(shape)) < 3:
+                continue
+            for order in itertools.permutations("xyz"):
+                yield ("decl:" + "".join(order), shape, (X, Y, Z), "rich")
     if thorough:
         for t in trees_by_depth(XYZ_REP, 2):
             if Q.depth(t) < 2:
@@ -93,7 +107,11 @@ def cases(tier, inst):
 def query_of(case):
     vk, tree, sel, w = case
     used = Q.cond_vars(sel) | (Q.cond_vars(tree) if tree else set())
-    vars_ = tuple(v for v in VARSETS[vk] if v[0] in used)
+    if vk.startswith("decl:"):
+        byname = {v[0]: v for v in VARS3}
+        vars_ = tuple(byname[n] for n in vk[5:] if n in used)
+    else:
+        vars_ = tuple(v for v in VARSETS[vk] if v[0] in used)
     return ("Q", "an", "setof", tuple(sel), (tree,) if tree else (), vars_)
 
 
